@@ -162,6 +162,38 @@ fn mb_delta_step() {
     kani::cover!(prev[1].present && cur[1].present && prev[1].alt_addr != cur[1].alt_addr, "address change");
 }
 
+/// D6 (KNOWN FINDING, see known_findings.txt): the deltas travel on a LATEST-VALUE channel (tokio::sync::watch). Concrete history:
+/// node 1 joins (first change), then a second snapshot with the same membership is processed before the subscriber reads.
+/// A subscriber that reads only then is handed the latest delta alone (empty) and never learns about node 1, although the
+/// property promises the live membership "no matter how slowly it reads". Demonstrated on the real tokio channel and the real
+/// function in notes/D6_demo.diff. This obligation FAILS on the pinned tree by design and is reported as KNOWN-FINDING.
+#[kani::proof]
+#[kani::unwind(5)]
+fn mb_slow_subscriber() {
+    let m1 = AbsMember { present: true, alt_addr: false, dc: 0 };
+    let me = AbsMember { present: true, alt_addr: false, dc: 0 };
+    let snap: AbsSnap = [me, m1];
+    let mut items = Vec::new();
+    items.push(build(&snap));
+    items.push(build(&snap));
+    let network = RpcNetwork::new();
+    let selector = NodeSelectorHandle::new();
+    let stats = ClusterStatistics::new();
+    let tx = watch::Sender::<MembershipChange>::new();
+    watch_membership_changes(SELF_ID, network.clone(), selector.clone(), stats.clone(), WatchStream::from_items(items), tx.clone());
+    // what a receiver that reads now is handed: the latest value only
+    let mut live: [Option<SocketAddr>; NID] = [None; NID];
+    if let Some(d) = tx.latest() {
+        for m in d.left.iter() {
+            live[m.node_id as usize] = None;
+        }
+        for m in d.joined.iter() {
+            live[m.node_id as usize] = Some(m.public_addr);
+        }
+    }
+    assert!(live[1] == Some(addr_of(1, false)), "D6: a subscriber that reads after two membership changes were published holds the live membership");
+}
+
 // native replay of Kani counterexamples (tools/replay.py writes the file)
 #[cfg(verif_replay)]
 include!("/verif/build/membership/replay_tests.rs");
